@@ -291,41 +291,49 @@ def gen_cases_m3(ctx):
     return cases
 
 
-def _check(ctx, cases, outs, m, seed, tag):
-    reqs = [request(c) for c in cases]
-    impl = [canon(c, o) for c, o in zip(cases, outs)]
-    model = common.LeanDriver('Tools').run(reqs)
-    ctx.compare(f'sorting/selection outputs ({tag})', impl, model, reqs)
-    for c, o in zip(cases, outs):
-        ctx.case((tag, c['fn'], c['key'], c.get('reverse'), c.get('type'), tuple(map(tuple, c['elems']))))
-        ctx.count(f"{c['fn']}/{c['key']}/n={len(c['elems'])}")
-        if isinstance(o, str) and (o.startswith('RUN-ERROR') or o == 'PARTIES-DISAGREE'):
-            ctx.violation(f'real run failed: {o}', dict(c, kind='case', m=m, seed=seed, observed=o,
-                                                       expected='a result'))
-            continue
-        ok, exp = oracle_ok(c, o)
-        if not ok:
-            ctx.violation(f"mpc {c['fn']} (key={c['key']}, reverse={c.get('reverse')}) wrong on "
-                          f"{c['elems']}: observed {o}, expected {exp}",
-                          dict(c, kind='case', m=m, seed=seed, observed=repr(o), expected=exp))
+def _check(ctx, groups, nets):
+    """groups: list of (cases, outs, m, seed, tag); plus the extracted networks; ONE Lean driver invocation"""
+    reqs = []
+    for cases, outs, m, seed, tag in groups:
+        reqs += [request(c) for c in cases]
+    nreqs = [f'net {n}' for n in sorted(nets)]
+    model = common.LeanDriver('Tools').run(reqs + nreqs)
+    failed = isinstance(model, common.DriverFailure)
+    pos = 0
+    for cases, outs, m, seed, tag in groups:
+        impl = [canon(c, o) for c, o in zip(cases, outs)]
+        ctx.compare(f'sorting/selection outputs ({tag})', impl, model if failed else model[pos:pos + len(cases)],
+                    reqs[pos:pos + len(cases)])
+        pos += len(cases)
+        for c, o in zip(cases, outs):
+            ctx.case((tag, c['fn'], c['key'], c.get('reverse'), c.get('type'), tuple(map(tuple, c['elems']))))
+            ctx.count(f"{c['fn']}/{c['key']}/n={len(c['elems'])}")
+            if isinstance(o, str) and (o.startswith('RUN-ERROR') or o == 'PARTIES-DISAGREE'):
+                ctx.violation(f'real run failed: {o}', dict(c, kind='case', m=m, seed=seed, observed=o,
+                                                           expected='a result'))
+                continue
+            ok, exp = oracle_ok(c, o)
+            if not ok:
+                ctx.violation(f"mpc {c['fn']} (key={c['key']}, reverse={c.get('reverse')}) wrong on "
+                              f"{c['elems']}: observed {o}, expected {exp}",
+                              dict(c, kind='case', m=m, seed=seed, observed=repr(o), expected=exp))
+    # the model network vs the network the code executes, beyond the proved range
+    impl = [' '.join(f'{i}:{j}' for i, j in nets[n]) or '-' for n in sorted(nets)]
+    ctx.compare('comparator sequence of _sort vs model sortNet', impl, model if failed else model[pos:], nreqs)
+    ctx.count('extracted networks', len(nets))
 
 
 def run(ctx):
     cases = gen_cases(ctx)
-    outs = run_cases(cases, 1, ctx.seed)
-    _check(ctx, cases, outs, 1, ctx.seed, 'm=1')
     c3 = gen_cases_m3(ctx)
-    o3 = run_cases(c3, 3, ctx.seed + 1)
-    _check(ctx, c3, o3, 3, ctx.seed + 1, 'm=3')
+    with Pool(2) as top:      # m = 3 sample concurrently with the m = 1 sweep
+        r3 = top.apply_async(_run_batch, ((c3, 3, ctx.seed + 1),))
+        outs = run_cases(cases, 1, ctx.seed)
+        o3 = r3.get()
+    nets = _GEN.get('nets') or extract_all(NCORR)[0]
+    _check(ctx, [(cases, outs, 1, ctx.seed, 'm=1'), (c3, o3, 3, ctx.seed + 1, 'm=3')], nets)
     for c, o in list(zip(cases, outs))[:2] + list(zip(c3, o3))[-2:]:
         ctx.sample({'case': c, 'observed': canon(c, o)})
-    # the model network vs the network the code executes, beyond the proved range
-    nets = _GEN.get('nets') or extract_all(NCORR)[0]
-    reqs = [f'net {n}' for n in sorted(nets)]
-    impl = [' '.join(f'{i}:{j}' for i, j in nets[n]) or '-' for n in sorted(nets)]
-    model = common.LeanDriver('Tools').run(reqs)
-    ctx.compare('comparator sequence of _sort vs model sortNet', impl, model, reqs)
-    ctx.count('extracted networks', len(nets))
 
 
 # ---------------------------------------------------------------------------------------------
